@@ -85,8 +85,7 @@ def r1(ctx, cfg, R="C02.R1"):
            sample="transactional x1, reply only")
 
 
-def r2(ctx, cfg):
-    R = "C02.R2"
+def r2(ctx, cfg, R="C02.R2", only=None):
     a = submsg.analyse(cfg)
     if a is None:
         ctx.fail(R, KEY, "anchor-missing", "execute_submsg not found")
@@ -96,6 +95,8 @@ def r2(ctx, cfg):
         ctx.fail(R, KEY, "unrecognised-idiom", p, fn=f)
     for (oc, ro), seqs in sorted(a["table"].items()):
         inst = "cell(%s,%s)" % (oc, ro)
+        if only is not None and not only(oc, ro):
+            continue
         if not seqs:
             ctx.fail(R, KEY, inst, "no path for this cell (unrecognised idiom)", fn=f)
             continue
